@@ -4,6 +4,7 @@ package main
 
 import (
 	"fmt"
+	"math/big"
 	"strings"
 	"time"
 
@@ -71,10 +72,27 @@ func famClear(r *Rng, o *Out, tier string) {
 		if r.Chance(1, 20) {
 			nc = 8 + r.Intn(4)
 		}
+		// (audit) sets far longer than any hand-written one
+		if r.Chance(1, 60) {
+			nc = 12 + r.Intn(53)
+			if tier == "thorough" && r.Chance(1, 4) {
+				nc = 65 + r.Intn(300)
+			}
+			o.count("set.large")
+		}
 		cavs := make([]macaroon.Caveat, nc)
 		for j := range cavs {
 			cavs[j] = r.Cav(3)
+			// (audit) values outside the shared pools: see clearWideCav
+			if r.Chance(1, 8) {
+				cavs[j] = clearWideCav(r, o, 2)
+			}
 			o.count(fmt.Sprintf("cav.%T", cavs[j]))
+		}
+		// (audit) one caveat VALUE (the same pointer) at two positions of the set
+		if nc >= 2 && r.Chance(1, 8) {
+			cavs[r.Intn(nc)] = cavs[r.Intn(nc)]
+			o.count("alias.caveat")
 		}
 		// a caveat type of a library USER (not in the registered universe): it implements macaroon.Attestation
 		// and answers per value; IsAttestation() == false means it is an ordinary caveat that must be asked
@@ -84,21 +102,43 @@ func famClear(r *Rng, o *Out, tier string) {
 			cavs = append(cavs[:at], append([]macaroon.Caveat{uc}, cavs[at:]...)...)
 			o.count(fmt.Sprintf("cav.user.attest=%v", uc.Attest))
 		}
+		// (audit) further user-defined types: see userTypes
+		if r.Chance(1, 10) {
+			uc := clearUserCav(r, o, r.Bool())
+			at := r.Intn(len(cavs) + 1)
+			cavs = append(cavs[:at], append([]macaroon.Caveat{uc}, cavs[at:]...)...)
+		}
 		nr := pick(r, []int{1, 1, 1, 2, 3, 4, 0})
+		// (audit) long request lists
+		if r.Chance(1, 30) {
+			nr = 5 + r.Intn(12)
+			if tier == "thorough" && r.Chance(1, 4) {
+				nr = 17 + r.Intn(60)
+			}
+			o.count("reqs.long")
+		}
 		reqs := make([]req, nr)
-		accs := make([]macaroon.Access, nr)
-		sxs := make([]string, nr)
 		for j := range reqs {
 			reqs[j] = r.Req()
-			accs[j] = reqs[j].acc
-			sxs[j] = reqs[j].sx
+			// (audit) the same request OBJECT twice in the list
+			if j > 0 && r.Chance(1, 10) {
+				reqs[j] = reqs[r.Intn(j)]
+				o.count("alias.request")
+			}
 			o.count("req." + reqs[j].tag)
 		}
-		cs := macaroon.NewCaveatSet(cavs...)
-		res := guard(func() string { return sxErr(cs.Validate(accs...)) })
-		errClassStats(o, res)
-		o.emit(fmt.Sprintf("(validate %s (%s))", sxCavs(cavs), strings.Join(sxs, " ")), res)
+		clearValidate(r, o, cavs, reqs)
+		// (audit) the same set asked again with another list (whatever the first answer was)
+		if r.Chance(1, 10) {
+			again := make([]req, pick(r, []int{1, 1, 2}))
+			for j := range again {
+				again[j] = r.Req()
+			}
+			o.count("set.reused")
+			clearValidate(r, o, cavs, again)
+		}
 	}
+	clearNeedles(r, o, tier)
 	// exhaustive product: every caveat kind x every request type (getter lemmas)
 	for k := 0; k < nCavKinds; k++ {
 		for _, kind := range dynKinds {
@@ -155,6 +195,718 @@ func (c *userCaveat) Prohibits(macaroon.Access) error {
 	return fmt.Errorf("%w: user caveat", macaroon.ErrBadCaveat)
 }
 func (c *userCaveat) IsAttestation() bool { return c.Attest }
+
+// ---- (audit) C03: wider pools, user-defined types, routes, needles ----
+
+// Further caveat types of a library user.  None is in the model; each is rendered as the model kind with the
+// same clearing behaviour (what Validate must do with it follows from the interfaces alone, never from the
+// type number it reports - which is drawn from numbers the library uses itself):
+//
+//	userPlain  no IsAttestation method: always asked; permits (-> isUser) or refuses (-> unregistered)
+//	userAtt    IsAttestation() per value: skipped when true (-> an attestation), else as userPlain
+//	userWrap   a WrapperCaveat: Validate asks ITS Prohibits, whatever Unwrap holds
+type userPlain struct {
+	Typ    macaroon.CaveatType
+	Permit bool
+}
+type userAtt struct {
+	Typ            macaroon.CaveatType
+	Attest, Permit bool
+}
+type userWrap struct {
+	Typ    macaroon.CaveatType
+	Permit bool
+	Inner  *macaroon.CaveatSet
+}
+
+func userAnswer(permit bool) error {
+	if permit {
+		return nil
+	}
+	return fmt.Errorf("%w: user caveat", macaroon.ErrBadCaveat)
+}
+func (c *userPlain) CaveatType() macaroon.CaveatType { return c.Typ }
+func (c *userPlain) Name() string                    { return "HarnessUserPlain" }
+func (c *userPlain) Prohibits(macaroon.Access) error { return userAnswer(c.Permit) }
+func (c *userAtt) CaveatType() macaroon.CaveatType   { return c.Typ }
+func (c *userAtt) Name() string                      { return "HarnessUserAtt" }
+func (c *userAtt) Prohibits(macaroon.Access) error   { return userAnswer(c.Permit) }
+func (c *userAtt) IsAttestation() bool               { return c.Attest }
+func (c *userWrap) CaveatType() macaroon.CaveatType  { return c.Typ }
+func (c *userWrap) Name() string                     { return "HarnessUserWrap" }
+func (c *userWrap) Prohibits(macaroon.Access) error  { return userAnswer(c.Permit) }
+func (c *userWrap) Unwrap() *macaroon.CaveatSet      { return c.Inner }
+
+var userTypeNumbers = []macaroon.CaveatType{1 << 40, 1 << 48, 1<<64 - 2, macaroon.CavUnregistered, macaroon.CavMinUserRegisterable,
+	macaroon.AttestationAuthFlyioUserID, macaroon.AttestationAuthGoogleUserID, macaroon.CavFlyioIsUser, macaroon.CavIfPresent, macaroon.Cav3P, 0, 1}
+
+func sxUserAnswer(permit bool, typ macaroon.CaveatType) string {
+	if permit {
+		return "(isUser 0)"
+	}
+	return fmt.Sprintf("(unreg %d xc0)", uint64(typ))
+}
+
+// sxCavX prints what sxCav prints, and the user types above as clearing sees them
+func sxCavX(c macaroon.Caveat) string {
+	switch v := c.(type) {
+	case *userPlain:
+		return sxUserAnswer(v.Permit, v.Typ)
+	case *userAtt:
+		if v.Attest {
+			return "(flyioUser 0)"
+		}
+		return sxUserAnswer(v.Permit, v.Typ)
+	case *userWrap:
+		return sxUserAnswer(v.Permit, v.Typ)
+	case *resset.IfPresent:
+		if v.Ifs != nil {
+			return fmt.Sprintf("(ifp %s %d)", sxCavsX(v.Ifs.Caveats), uint16(v.Else))
+		}
+	}
+	return sxCav(c)
+}
+func sxCavsX(cs []macaroon.Caveat) string {
+	parts := make([]string, len(cs))
+	for i, c := range cs {
+		parts[i] = sxCavX(c)
+	}
+	return "(" + strings.Join(parts, " ") + ")"
+}
+
+func hasUserType(cs []macaroon.Caveat) bool {
+	for _, c := range cs {
+		switch v := c.(type) {
+		case *userPlain, *userAtt, *userWrap, *userCaveat:
+			return true
+		case *resset.IfPresent:
+			if v.Ifs != nil && hasUserType(v.Ifs.Caveats) {
+				return true
+			}
+		}
+	}
+	return false
+}
+
+// clearUserCav: a user-defined caveat (top level of a set only: inside a conditional nothing skips attestations)
+func clearUserCav(r *Rng, o *Out, permit bool) macaroon.Caveat {
+	typ := pick(r, userTypeNumbers)
+	switch r.Intn(3) {
+	case 0:
+		o.count(fmt.Sprintf("cav.userPlain.permit=%v", permit))
+		return &userPlain{Typ: typ, Permit: permit}
+	case 1:
+		// an attestation is skipped whatever it would answer; a non-attestation is asked
+		att := r.Bool()
+		ans := r.Bool()
+		if !att {
+			ans = permit
+		}
+		o.count(fmt.Sprintf("cav.userAtt.attest=%v.permit=%v", att, ans))
+		return &userAtt{Typ: typ, Attest: att, Permit: ans}
+	default:
+		// what the wrapper holds is not what Validate asks
+		var inner *macaroon.CaveatSet
+		switch r.Intn(3) {
+		case 0:
+			inner = macaroon.NewCaveatSet()
+		case 1:
+			b := macaroon.BindToParentToken(r.Bytes(4))
+			inner = macaroon.NewCaveatSet(&b, &flyio.IsUser{ID: 1})
+		}
+		o.count(fmt.Sprintf("cav.userWrap.permit=%v", permit))
+		return &userWrap{Typ: typ, Permit: permit, Inner: inner}
+	}
+}
+
+// type numbers of UnregisteredCaveat VALUES: unallocated, reserved, block boundaries, the sentinel, and numbers the
+// library has a type for (a value of this Go type is what it is, whatever number it carries)
+var unregTypeNumbers = []uint64{1, 17, 18, 32, 33, 255, 1000, 1 << 16, 1<<16 + 0xff, 1<<17 - 1, 1 << 17, 1<<32 - 1, 1 << 32, 1<<48 - 1, 1 << 48, 1<<64 - 2, 1<<64 - 1,
+	0, 4, 10, 11, 12, 13, 22, 23, 24, 25, 26, 31}
+
+func clearUnreg(r *Rng, o *Out) *macaroon.UnregisteredCaveat {
+	uc := &macaroon.UnregisteredCaveat{Type: macaroon.CaveatType(pick(r, unregTypeNumbers))}
+	switch r.Intn(4) {
+	case 0: // as decoded from JSON: no msgpack body
+		uc.RawJSON = []byte(pick(r, []string{"{}", "null", "1", "[]", "{\"id\":1}"}))
+		uc.Body = map[string]any{}
+		o.count("unreg.jsonborn")
+	case 1:
+		uc.RawMsgpack = []byte{}
+		o.count("unreg.emptybody")
+	default:
+		uc.RawMsgpack = append([]byte{}, pick(r, [][]byte{{0xc0}, {0x01}, {0x90}, {0x91, 0x05}, {0xa1, 0x61}, {0x80}, {0x92, 0x01, 0x1f}, {0xc3}})...)
+		uc.Body = pick(r, []any{nil, int8(1), "a", []any{}})
+		o.count("unreg.body")
+	}
+	return uc
+}
+
+// clearWideCav: caveat values the shared generator never draws - unregistered values with any type number and
+// no / empty body, freshly made third-party caveats, bindings of the real lengths, conditionals without a set, with
+// many or repeated members, windows that are empty or unbounded
+func clearWideCav(r *Rng, o *Out, depth int) macaroon.Caveat {
+	switch r.Intn(8) {
+	case 0, 1:
+		return clearUnreg(r, o)
+	case 2:
+		if r.Bool() {
+			if c, err := macaroon.NewCaveat3P(macaroon.EncryptionKey(r.Bytes(32)), pick(r, []string{"", "https://auth.example/", "a"})); err == nil {
+				o.count("tp.fresh")
+				return c
+			}
+		}
+		o.count("tp.literal")
+		return &macaroon.Caveat3P{Location: r.str(), VerifierKey: pick(r, [][]byte{nil, {}, r.Bytes(48)}), Ticket: pick(r, [][]byte{nil, {}, r.Bytes(60)})}
+	case 3:
+		b := macaroon.BindToParentToken(pick(r, [][]byte{nil, {}, r.Bytes(16), r.Bytes(32), r.Bytes(33)}))
+		o.count(fmt.Sprintf("bind.len%d", len(b)))
+		return &b
+	case 4:
+		o.count("ifp.nilIfs")
+		return &resset.IfPresent{Else: r.mask()}
+	case 5:
+		if depth <= 0 {
+			return clearUnreg(r, o)
+		}
+		n := pick(r, []int{0, 1, 2, 9, 20})
+		cs := make([]macaroon.Caveat, n)
+		for i := range cs {
+			if i > 0 && r.Chance(1, 4) {
+				cs[i] = cs[r.Intn(i)]
+			} else if r.Chance(1, 4) {
+				cs[i] = clearWideCav(r, o, depth-1)
+			} else {
+				cs[i] = r.Cav(depth - 1)
+			}
+		}
+		o.count(fmt.Sprintf("ifp.members%d", n))
+		return &resset.IfPresent{Ifs: macaroon.NewCaveatSet(cs...), Else: r.mask()}
+	case 6:
+		nb := pick(r, []int64{-1 << 63, 0, baseNow - 1, baseNow, baseNow + 1, 1<<63 - 1})
+		na := pick(r, []int64{-1 << 63, 0, baseNow - 1, baseNow, baseNow + 1, 1<<63 - 1})
+		o.count("vw.wide")
+		return &macaroon.ValidityWindow{NotBefore: nb, NotAfter: na}
+	default:
+		// a set type without a map
+		o.count("set.nilmap")
+		switch r.Intn(4) {
+		case 0:
+			return &flyio.Apps{}
+		case 1:
+			return &flyio.Volumes{}
+		case 2:
+			return &flyio.StorageObjects{}
+		}
+		return &flyio.FeatureSet{}
+	}
+}
+
+// clearValidate runs one Validate through one of the ways a caller has of asking, and emits it
+func clearValidate(r *Rng, o *Out, cavs []macaroon.Caveat, reqs []req) {
+	accs := make([]macaroon.Access, len(reqs))
+	sxs := make([]string, len(reqs))
+	for j := range reqs {
+		accs[j], sxs[j] = reqs[j].acc, reqs[j].sx
+	}
+	shown := cavs
+	var res string
+	switch route := r.Intn(6); route {
+	default:
+		cs := macaroon.NewCaveatSet(cavs...)
+		res = guard(func() string { return sxErr(cs.Validate(accs...)) })
+		o.count("route.method")
+	case 1:
+		cs := macaroon.NewCaveatSet(cavs...)
+		res = guard(func() string { return sxErr(macaroon.Validate(cs, accs...)) })
+		o.count("route.generic")
+	case 2: // a set value built by hand over the caller's slice (nil when empty)
+		cs := &macaroon.CaveatSet{Caveats: cavs}
+		if len(cavs) == 0 {
+			cs = &macaroon.CaveatSet{}
+		}
+		res = guard(func() string { return sxErr(cs.Validate(accs...)) })
+		o.count("route.literal")
+	case 3: // through the wire: what is cleared is the decoded set (shown to the model as decoded), none dropped
+		cs := macaroon.NewCaveatSet(cavs...)
+		if hasUserType(cavs) {
+			res = guard(func() string { return sxErr(cs.Validate(accs...)) })
+			o.count("route.method")
+			break
+		}
+		var cl *macaroon.CaveatSet
+		cerr := guard(func() string {
+			var err error
+			if cl, err = cs.Clone(); err != nil {
+				return "err"
+			}
+			return "ok"
+		})
+		if cerr != "ok" || cl == nil {
+			res = guard(func() string { return sxErr(cs.Validate(accs...)) })
+			o.count("route.clone.refused")
+			break
+		}
+		if len(cl.Caveats) != len(cavs) {
+			o.emit("(const clone-keeps-every-caveat)", fmt.Sprintf("clone-has-%d-of-%d", len(cl.Caveats), len(cavs)))
+		}
+		shown = cl.Caveats
+		res = guard(func() string { return sxErr(cl.Validate(accs...)) })
+		o.count("route.clone")
+	}
+	errClassStats(o, res)
+	o.emit(fmt.Sprintf("(validate %s (%s))", sxCavsX(shown), strings.Join(sxs, " ")), res)
+}
+
+// ---- needles: sets and lists in which everything permits except one item, at every position ----
+
+var needleStrs = []string{"a", "ab", "d/e/f", "wg", "litefs-cloud", "A", "*", "zz", ""}
+
+// needleDyn: a request (seen as the type implementing every getter) with every field present
+func needleDyn(r *Rng) *Dyn {
+	s := func() *string { return pstr(pick(r, needleStrs)) }
+	d := &Dyn{NowSec: baseNow + int64(r.Intn(7)) - 3, NowNsec: pick(r, []int64{0, 1, 999999999})}
+	d.Action = pick(r, []resset.Action{1, 2, 3, 8, 17, 31, 32, 0x8001, 0xffff})
+	d.Org = p64(pick(r, []uint64{1, 2, 7, 1<<32 + 1, 0}))
+	d.App = p64(pick(r, []uint64{1, 2, 7, 1<<32 + 1, 0}))
+	d.AppFeat, d.Feature, d.Volume, d.Machine, d.MachFeat, d.Cluster = s(), s(), s(), s(), s(), s()
+	p := resset.Prefix(pick(r, []string{"d/e/f", "d", "abc", ""}))
+	d.Storage = &p
+	d.Mutation, d.SrcMach, d.SrcApp, d.SrcOrg = s(), s(), s(), s()
+	d.HasCmd = true
+	for i, n := 0, r.Intn(4); i < n; i++ {
+		d.Command = append(d.Command, pick(r, []string{"a", "b", "ls", "", "-l"}))
+	}
+	d.Roles = pick(r, [][]flyio.Role{{1}, {1, 2}, {0xFFFFFFFF, 1}, {2, 1, 1}})
+	return d
+}
+
+// needlePermit: a caveat cut to permit d (seen as kind "full")
+func needlePermit(r *Rng, o *Out, d *Dyn, top bool, depth int) macaroon.Caveat {
+	sup := func() resset.Action { return d.Action | pick(r, []resset.Action{0, 31, 0xffff, 0x4000}) }
+	strSet := func(id string) resset.ResourceSet[string, resset.Action] {
+		m := resset.ResourceSet[string, resset.Action]{id: sup()}
+		if id != "" {
+			for i, n := 0, r.Intn(3); i < n; i++ {
+				m[id+pick(r, []string{"x", "/", " ", "\x00"})] = r.mask()
+			}
+		}
+		return m
+	}
+	k := r.Intn(22)
+	if !top && (k == 18 || k == 21) {
+		k = 11
+	}
+	if depth <= 0 && (k == 19) {
+		k = 20
+	}
+	switch k {
+	case 0:
+		id := *d.Org
+		if r.Chance(1, 3) {
+			id = 0
+		}
+		return &flyio.Organization{ID: id, Mask: sup()}
+	case 1:
+		m := resset.ResourceSet[uint64, resset.Action]{*d.App: sup()}
+		if *d.App != 0 {
+			if r.Chance(1, 4) {
+				m = resset.ResourceSet[uint64, resset.Action]{0: sup()}
+			} else if r.Bool() {
+				m[*d.App+1] = r.mask()
+			}
+		}
+		return &flyio.Apps{Apps: m}
+	case 2:
+		return &flyio.Volumes{Volumes: strSet(*d.Volume)}
+	case 3:
+		return &flyio.Machines{Machines: strSet(*d.Machine)}
+	case 4:
+		return &flyio.FeatureSet{Features: strSet(*d.Feature)}
+	case 5:
+		return &flyio.MachineFeatureSet{Features: strSet(*d.MachFeat)}
+	case 6:
+		return &flyio.AppFeatureSet{Features: strSet(*d.AppFeat)}
+	case 7:
+		return &flyio.Clusters{Clusters: strSet(*d.Cluster)}
+	case 8:
+		id := string(*d.Storage)
+		m := resset.ResourceSet[resset.Prefix, resset.Action]{}
+		if id == "" || r.Chance(1, 5) {
+			m[""] = sup()
+		} else {
+			for i, n := 0, 1+r.Intn(2); i < n; i++ {
+				m[resset.Prefix(id[:1+r.Intn(len(id))])] = sup()
+			}
+			if r.Bool() {
+				m[resset.Prefix(id+"x")] = r.mask()
+			}
+		}
+		return &flyio.StorageObjects{Prefixes: m}
+	case 9:
+		nb := pick(r, []int64{d.NowSec, d.NowSec - 1, d.NowSec - 100, 0, -1 << 63})
+		na := pick(r, []int64{d.NowSec + 1, d.NowSec + 100, 1<<63 - 1})
+		if d.NowNsec == 0 && r.Bool() {
+			na = d.NowSec
+		}
+		return &macaroon.ValidityWindow{NotBefore: nb, NotAfter: na}
+	case 10:
+		a := sup()
+		return &a
+	case 11:
+		return &flyio.IsUser{ID: r.id()}
+	case 12:
+		ms := []string{}
+		for i, n := 0, r.Intn(3); i < n; i++ {
+			ms = append(ms, *d.Mutation+pick(r, []string{"x", " ", "X"}))
+		}
+		at := r.Intn(len(ms) + 1)
+		ms = append(ms[:at], append([]string{*d.Mutation}, ms[at:]...)...)
+		return &flyio.Mutations{Mutations: ms}
+	case 13:
+		var cs flyio.Commands
+		for i, n := 0, r.Intn(3); i < n; i++ {
+			cs = append(cs, flyio.Command{Args: append(append([]string{}, d.Command...), "more"), Exact: r.Bool()})
+		}
+		n := r.Intn(len(d.Command) + 1)
+		cs = append(cs, flyio.Command{Args: append([]string{}, d.Command[:n]...), Exact: n == len(d.Command) && r.Bool()})
+		return &cs
+	case 14:
+		ar := flyio.AllowedRoles(uint32(pick(r, d.Roles)) | pick(r, []uint32{0, 4, 0x80000000}))
+		return &ar
+	case 15:
+		return &flyio.IsMember{}
+	case 16:
+		return &flyio.FromMachine{ID: *d.SrcMach}
+	case 17:
+		c := &flyio.FlySrc{}
+		if r.Bool() {
+			c.Organization = *d.SrcOrg
+		}
+		if r.Bool() {
+			c.App = *d.SrcApp
+		}
+		if r.Bool() {
+			c.Instance = *d.SrcMach
+		}
+		return c
+	case 18:
+		switch r.Intn(3) {
+		case 0:
+			u := auth.FlyioUserID(r.id())
+			return &u
+		case 1:
+			u := auth.GitHubUserID(r.id())
+			return &u
+		}
+		u := auth.GoogleUserID(*new(big.Int).SetBytes(r.Bytes(r.Intn(12))))
+		return &u
+	case 19:
+		cs := make([]macaroon.Caveat, 1+r.Intn(3))
+		for i := range cs {
+			cs[i] = needlePermit(r, o, d, false, depth-1)
+		}
+		return &resset.IfPresent{Ifs: macaroon.NewCaveatSet(cs...), Else: r.mask()}
+	case 20:
+		return &resset.IfPresent{Ifs: macaroon.NewCaveatSet(), Else: sup()}
+	default:
+		return clearUserCav(r, o, true)
+	}
+}
+
+// needleDeny: a caveat that refuses d - of the kinds that cannot be evaluated, and of the ordinary kinds
+func needleDeny(r *Rng, o *Out, d *Dyn, top bool, depth int) (macaroon.Caveat, string) {
+	lowBit := d.Action & -d.Action
+	k := r.Intn(17)
+	if !top && k == 16 {
+		k = 3
+	}
+	if depth <= 0 && (k == 10 || k == 11) {
+		k = 4
+	}
+	switch k {
+	case 0:
+		return &macaroon.Caveat3P{Location: r.str(), VerifierKey: r.Bytes(r.Intn(4)), Ticket: r.Bytes(r.Intn(4))}, "tp"
+	case 1:
+		if c, err := macaroon.NewCaveat3P(macaroon.EncryptionKey(r.Bytes(32)), "https://auth.example/"); err == nil {
+			return c, "tp.fresh"
+		}
+		return &macaroon.Caveat3P{}, "tp.zero"
+	case 2:
+		b := macaroon.BindToParentToken(pick(r, [][]byte{nil, {}, r.Bytes(16), r.Bytes(32)}))
+		return &b, fmt.Sprintf("bind%d", len(b))
+	case 3:
+		return clearUnreg(r, o), "unreg"
+	case 4:
+		return &resset.IfPresent{Else: resset.Action(0xffff)}, "ifp.nilIfs"
+	case 5:
+		return &flyio.Organization{ID: *d.Org + 1 + uint64(r.Intn(2))<<32, Mask: 0xffff}, "org.other"
+	case 6:
+		a := (d.Action &^ lowBit) | pick(r, []resset.Action{0, 0xffff &^ d.Action})
+		return &a, "action.narrow"
+	case 7:
+		switch r.Intn(3) {
+		case 0:
+			return &macaroon.ValidityWindow{NotBefore: d.NowSec - 10, NotAfter: d.NowSec - 1}, "vw.expired"
+		case 1:
+			return &macaroon.ValidityWindow{NotBefore: d.NowSec + 1, NotAfter: 1<<63 - 1}, "vw.notyet"
+		}
+		return &macaroon.ValidityWindow{NotBefore: d.NowSec + 1, NotAfter: d.NowSec - 1}, "vw.empty"
+	case 8:
+		switch r.Intn(5) {
+		case 0:
+			return &auth.ConfineUser{ID: r.id()}, "confine"
+		case 1:
+			return &auth.ConfineOrganization{ID: r.id()}, "confine"
+		case 2:
+			h := auth.ConfineGoogleHD(r.str())
+			return &h, "confine"
+		case 3:
+			g := auth.ConfineGitHubOrg(r.id())
+			return &g, "confine"
+		}
+		mv := auth.MaxValidity(1<<63 - 1)
+		return &mv, "maxValidity"
+	case 9:
+		switch r.Intn(4) {
+		case 0:
+			return &flyio.Volumes{Volumes: resset.ResourceSet[string, resset.Action]{}}, "set.empty"
+		case 1:
+			return &flyio.Volumes{Volumes: resset.ResourceSet[string, resset.Action]{*d.Volume: d.Action &^ lowBit}}, "set.mask"
+		case 2:
+			return &flyio.Machines{Machines: resset.ResourceSet[string, resset.Action]{"": 0xffff, "m1": 0xffff}}, "set.mixed"
+		}
+		return &flyio.Apps{Apps: resset.ResourceSet[uint64, resset.Action]{*d.App + 1<<32: 0xffff}}, "set.otherid"
+	case 10:
+		cs := []macaroon.Caveat{needlePermit(r, o, d, false, depth-1), needlePermit(r, o, d, false, depth-1)}
+		dn, why := needleDeny(r, o, d, false, depth-1)
+		at := r.Intn(3)
+		cs = append(cs[:at], append([]macaroon.Caveat{dn}, cs[at:]...)...)
+		return &resset.IfPresent{Ifs: macaroon.NewCaveatSet(cs...), Else: 0xffff}, "ifp(" + why + ")"
+	case 11:
+		u := auth.FlyioUserID(r.id())
+		return &resset.IfPresent{Ifs: macaroon.NewCaveatSet(&u), Else: 0xffff}, "ifp(attestation)"
+	case 12:
+		if r.Bool() {
+			return &flyio.Mutations{}, "mutations.none"
+		}
+		return &flyio.Mutations{Mutations: []string{*d.Mutation + "x", strings.ToUpper(*d.Mutation) + "!"}}, "mutations.other"
+	case 13:
+		if r.Bool() {
+			var c flyio.Commands
+			return &c, "commands.none"
+		}
+		c := flyio.Commands{{Args: append(append([]string{}, d.Command...), "more")}}
+		return &c, "commands.longer"
+	case 14:
+		ar := flyio.AllowedRoles(0)
+		return &ar, "roles.none"
+	case 15:
+		return &flyio.FromMachine{ID: *d.SrcMach + "x"}, "fromMachine.other"
+	default:
+		return clearUserCav(r, o, false), "user"
+	}
+}
+
+func clearNeedles(r *Rng, o *Out, tier string) {
+	sizes := []int{0, 1, 2, 3, 5, 8, 13, 20, 40}
+	rounds := 14
+	if tier == "thorough" {
+		sizes = append(sizes, 100, 300)
+		rounds = 200
+	}
+	emit := func(cavs []macaroon.Caveat, accs []macaroon.Access, sxs []string, tag string) string {
+		cs := macaroon.NewCaveatSet(cavs...)
+		res := guard(func() string { return sxErr(cs.Validate(accs...)) })
+		errClassStats(o, res)
+		if res == "ok" {
+			o.count(tag + ".ok")
+		} else {
+			o.count(tag + ".deny")
+		}
+		o.emit(fmt.Sprintf("(validate %s (%s))", sxCavsX(cavs), strings.Join(sxs, " ")), res)
+		return res
+	}
+	for round := 0; round < rounds; round++ {
+		for _, n := range sizes {
+			d := needleDyn(r)
+			base := make([]macaroon.Caveat, n)
+			for i := range base {
+				base[i] = needlePermit(r, o, d, true, 2)
+			}
+			acc, sx := d.As("full"), d.Sx("full")
+			emit(base, []macaroon.Access{acc}, []string{sx}, "needle.base")
+			// one refusing caveat, at the front, at the back and in between
+			for _, at := range needlePositions(r, n) {
+				dn, why := needleDeny(r, o, d, true, 2)
+				cavs := append(append(append([]macaroon.Caveat{}, base[:at]...), dn), base[at:]...)
+				o.count("needle.denier." + strings.SplitN(why, "(", 2)[0])
+				emit(cavs, []macaroon.Access{acc}, []string{sx}, "needle.caveat")
+			}
+			// request lists: copies and variants of the permitted request with ONE failing request, at every kind of
+			// position - malformed, refused by one caveat of the set (an action bit more), or of another request type
+			if n == 0 {
+				continue
+			}
+			for _, m := range []int{1, 2, 5, 12, 30} {
+				if m > 5 && round%3 != 0 {
+					continue
+				}
+				accs := make([]macaroon.Access, m)
+				sxs := make([]string, m)
+				for i := range accs {
+					accs[i], sxs[i] = acc, sx
+					if r.Bool() { // an equal request in another object
+						d2 := *d
+						accs[i], sxs[i] = d2.As("full"), d2.Sx("full")
+					}
+				}
+				emit(base, accs, sxs, "needle.reqs.base")
+				for _, at := range needlePositions(r, m) {
+					bad := *d
+					var why string
+					var bacc macaroon.Access
+					var bsx string
+					switch r.Intn(4) {
+					case 0:
+						bad.WF = pick(r, []string{"other", "invalidAccess", "resUnspecified", "resMutEx", "unauthorized"})
+						bacc, bsx, why = bad.As("full"), bad.Sx("full"), "malformed"
+					case 1:
+						bad.Action |= pick(r, []resset.Action{0x0100, 0x2000, 4, 64})
+						bacc, bsx, why = bad.As("full"), bad.Sx("full"), "actionbit"
+					case 2:
+						kind := pick(r, []string{"bare", "action", "org", "orgApp", "fullNoAction"})
+						bacc, bsx, why = bad.As(kind), bad.Sx(kind), "othertype"
+					default:
+						now := time.Now()
+						dr := r.DischargeRequest()
+						dr.Expiry = now.Add(time.Hour)
+						bacc, bsx, why = dr, sxDR(dr, now.Unix(), int64(now.Nanosecond())), "discharge"
+					}
+					la := append(append(append([]macaroon.Access{}, accs[:at]...), bacc), accs[at:]...)
+					ls := append(append(append([]string{}, sxs[:at]...), bsx), sxs[at:]...)
+					o.count("needle.badreq." + why)
+					emit(base, la, ls, "needle.reqs")
+				}
+			}
+		}
+		// the library's own request types, through the typed generic entry point, with a window around the wall clock
+		needleTyped(r, o)
+	}
+}
+
+// positions 0, n and up to two in between
+func needlePositions(r *Rng, n int) []int {
+	ps := []int{0}
+	if n > 0 {
+		ps = append(ps, n)
+	}
+	if n > 1 {
+		ps = append(ps, 1+r.Intn(n-1))
+	}
+	if n > 8 {
+		ps = append(ps, 1+r.Intn(n-1))
+	}
+	return ps
+}
+
+// needleTyped: well-formed *flyio.Access / *auth.DischargeRequest lists through macaroon.Validate[T], a set that
+// permits them all (the window holds the wall clock), one refusing caveat or one malformed / refused request inside
+func needleTyped(r *Rng, o *Out) {
+	now := time.Now()
+	mk := func() *Dyn {
+		d := &Dyn{Action: pick(r, []resset.Action{1, 3, 31}), Org: p64(7), App: p64(pick(r, []uint64{1, 2}))}
+		if r.Bool() {
+			d.Volume = pstr(pick(r, []string{"v1", "v2"}))
+		}
+		return d
+	}
+	m := 1 + r.Intn(5)
+	ds := make([]*Dyn, m)
+	for i := range ds {
+		ds[i] = mk()
+	}
+	act := resset.Action(31)
+	base := []macaroon.Caveat{
+		&flyio.Organization{ID: 7, Mask: 31},
+		&flyio.Apps{Apps: resset.ResourceSet[uint64, resset.Action]{1: 31, 2: 0xffff}},
+		&resset.IfPresent{Ifs: macaroon.NewCaveatSet(&flyio.Volumes{Volumes: resset.ResourceSet[string, resset.Action]{"v1": 31, "v2": 31}}), Else: 31},
+		&macaroon.ValidityWindow{NotBefore: now.Unix() - 3600, NotAfter: now.Unix() + 3600},
+		&flyio.IsMember{}, &act,
+	}
+	for variant := 0; variant < 4; variant++ {
+		cavs := append([]macaroon.Caveat{}, base...)
+		list := append([]*Dyn{}, ds...)
+		switch variant {
+		case 1:
+			at := r.Intn(len(cavs) + 1)
+			dn := pick(r, []macaroon.Caveat{
+				&macaroon.ValidityWindow{NotBefore: now.Unix() - 7200, NotAfter: now.Unix() - 3600},
+				&macaroon.ValidityWindow{NotBefore: now.Unix() + 3600, NotAfter: now.Unix() + 7200},
+				&flyio.Organization{ID: 8, Mask: 31}, &macaroon.Caveat3P{Location: "x"}, clearUnreg(r, o)})
+			cavs = append(cavs[:at], append([]macaroon.Caveat{dn}, cavs[at:]...)...)
+		case 2: // malformed: an app-owned resource without the app, or no organisation
+			bad := mk()
+			if r.Bool() {
+				bad.App, bad.Volume = nil, pstr("v1")
+			} else {
+				bad.Org = nil
+			}
+			at := r.Intn(len(list) + 1)
+			list = append(list[:at], append([]*Dyn{bad}, list[at:]...)...)
+		case 3: // refused by one caveat only
+			bad := mk()
+			switch r.Intn(3) {
+			case 0:
+				bad.Action = 32 | 1
+			case 1:
+				bad.App = p64(3)
+			default:
+				bad.Feature, bad.App, bad.Volume, bad.Action = pstr("billing"), nil, nil, 3 // members may only read it
+			}
+			at := r.Intn(len(list) + 1)
+			list = append(list[:at], append([]*Dyn{bad}, list[at:]...)...)
+		}
+		typed := make([]*flyio.Access, len(list))
+		sxs := make([]string, len(list))
+		for i, d := range list {
+			typed[i] = d.FlyioAccess()
+			sxs[i] = d.SxFlyio(now.Unix(), int64(now.Nanosecond()))
+		}
+		cs := macaroon.NewCaveatSet(cavs...)
+		res := guard(func() string { return sxErr(macaroon.Validate(cs, typed...)) })
+		errClassStats(o, res)
+		o.count(fmt.Sprintf("needle.typed.flyio.v%d.%s", variant, strings.SplitN(res, ":", 2)[0]))
+		o.emit(fmt.Sprintf("(validate %s (%s))", sxCavsX(cavs), strings.Join(sxs, " ")), res)
+	}
+	// discharge requests, typed
+	{
+		n := 1 + r.Intn(4)
+		drs := make([]*auth.DischargeRequest, n)
+		sxs := make([]string, n)
+		for i := range drs {
+			drs[i] = &auth.DischargeRequest{Flyio: []*auth.FlyioAuth{{UserID: 5, OrganizationIDs: []uint64{7, uint64(i)}}}, Expiry: now.Add(time.Minute)}
+		}
+		mv := auth.MaxValidity(3600)
+		cavs := []macaroon.Caveat{&auth.ConfineUser{ID: 5}, &auth.ConfineOrganization{ID: 7}, &mv}
+		if r.Bool() {
+			drs[r.Intn(n)].Flyio[0].UserID = 6
+		}
+		if r.Chance(1, 3) {
+			at := r.Intn(len(cavs) + 1)
+			b := macaroon.BindToParentToken(r.Bytes(32))
+			cavs = append(cavs[:at], append([]macaroon.Caveat{&b}, cavs[at:]...)...)
+		}
+		for i := range drs {
+			sxs[i] = sxDR(drs[i], now.Unix(), int64(now.Nanosecond()))
+		}
+		cs := macaroon.NewCaveatSet(cavs...)
+		res := guard(func() string { return sxErr(macaroon.Validate(cs, drs...)) })
+		errClassStats(o, res)
+		o.count("needle.typed.dr." + strings.SplitN(res, ":", 2)[0])
+		o.emit(fmt.Sprintf("(validate %s (%s))", sxCavsX(cavs), strings.Join(sxs, " ")), res)
+	}
+}
 
 // ---- C09: resource sets, conditionals, actions over a small universe ----
 
@@ -300,8 +1052,20 @@ func famResset(r *Rng, o *Out, tier string) {
 			o.count("action")
 		}
 	}
+	ressetWide(r, o, tier, run)
+	ressetCondNeedles(r, o, tier, run)
 	// conditionals of depth <= 2 over small inner caveats, and random deeper ones
 	inner := func() macaroon.Caveat {
+		// (audit) members that are not resource sets: kinds that never answer "unspecified" (windows, IsUser, roles,
+		// source restrictions), kinds that cannot be evaluated (attestations, third-party, binding, unregistered - nothing
+		// skips them inside a conditional), mutations / commands (unspecified when absent), storage objects, clusters
+		if r.Chance(1, 4) {
+			o.count("cond.member.other")
+			if r.Chance(1, 5) {
+				return clearWideCav(r, o, 0)
+			}
+			return r.CavKind(pick(r, []int{5, 6, 7, 8, 9, 10, 11, 13, 14, 15, 17, 20, 21, 22, 23, 24, 26, 27, 28, 29}), 0)
+		}
 		switch r.Intn(6) {
 		case 0:
 			return &flyio.Volumes{Volumes: pick(r, sets[:60])}
@@ -321,15 +1085,31 @@ func famResset(r *Rng, o *Out, tier string) {
 	var cond func(depth int) macaroon.Caveat
 	cond = func(depth int) macaroon.Caveat {
 		n := r.Intn(4)
+		// (audit) many members; the same member value twice; a conditional without a set
+		if r.Chance(1, 25) {
+			n = 5 + r.Intn(30)
+			o.count("cond.members.many")
+		}
+		if r.Chance(1, 60) {
+			o.count("cond.nilIfs")
+			return &resset.IfPresent{Else: pick(r, masks)}
+		}
 		cs := make([]macaroon.Caveat, n)
 		for i := range cs {
-			if depth > 0 && r.Chance(1, 3) {
+			if i > 0 && r.Chance(1, 10) {
+				cs[i] = cs[r.Intn(i)]
+				o.count("cond.member.repeated")
+			} else if depth > 0 && r.Chance(1, 3) {
 				cs[i] = cond(depth - 1)
 			} else {
 				cs[i] = inner()
 			}
 		}
-		return &resset.IfPresent{Ifs: macaroon.NewCaveatSet(cs...), Else: pick(r, masks)}
+		els := pick(r, masks)
+		if r.Chance(1, 6) {
+			els = r.mask()
+		}
+		return &resset.IfPresent{Ifs: macaroon.NewCaveatSet(cs...), Else: els}
 	}
 	nc := 3000
 	if tier == "thorough" {
@@ -344,12 +1124,439 @@ func famResset(r *Rng, o *Out, tier string) {
 		d := &Dyn{NowSec: baseNow, Action: pick(r, actions), Org: pick(r, reqInts), App: pick(r, reqInts),
 			Volume: pick(r, reqIDs), Machine: pick(r, reqIDs), Feature: pick(r, reqIDs)}
 		kind := pick(r, []string{"full", "full", "full", "orgApp", "volume", "action", "bare", "fullNoAction"})
-		run(c, d, kind)
+		// (audit) requests with every other field drawn too (commands, mutations, sources, roles, storage objects,
+		// request times) and any action mask; the library's own request type
+		if r.Chance(1, 4) {
+			dd := r.Dyn()
+			dd.WF = ""
+			if r.Bool() {
+				dd.Org, dd.App, dd.Volume, dd.Machine, dd.Feature = d.Org, d.App, d.Volume, d.Machine, d.Feature
+			}
+			d = dd
+			o.count("cond.req.wide")
+		}
+		if r.Chance(1, 6) {
+			now := time.Now()
+			a := d.FlyioAccess()
+			res := guard(func() string { return sxErr(c.Prohibits(a)) })
+			errClassStats(o, res)
+			o.count("cond.req.flyio")
+			o.emit(fmt.Sprintf("(prohibits %s %s)", sxCav(c), d.SxFlyio(now.Unix(), int64(now.Nanosecond()))), res)
+		} else {
+			run(c, d, kind)
+		}
 		o.count(fmt.Sprintf("cond.depth%d", depth))
 		// monotonicity probe: the same request with a sub-action
 		d2 := *d
 		d2.Action = d.Action & pick(r, actions)
+		if r.Chance(1, 4) {
+			d2.Action = d.Action & r.mask()
+		}
 		run(c, &d2, kind)
+	}
+}
+
+// ---- (audit) C09: wider id, mask and set pools; the generic type used directly ----
+
+// an 8-bit mask type and id types of a library user
+type mask8 uint8
+
+func (m mask8) String() string { return fmt.Sprintf("m%02x", uint8(m)) }
+
+type userStrID string
+type userPrefixID string
+
+func (p userPrefixID) Match(other userPrefixID) bool {
+	return strings.HasPrefix(string(other), string(p))
+}
+
+func ressetWide(r *Rng, o *Out, tier string, run func(c macaroon.Caveat, d *Dyn, kind string)) {
+	quick := tier != "thorough"
+	cnt := 0
+	skip := func(stride int) bool {
+		cnt++
+		return quick && cnt%stride != 0
+	}
+	toPrefix := func(s resset.ResourceSet[string, resset.Action]) resset.ResourceSet[resset.Prefix, resset.Action] {
+		pm := resset.ResourceSet[resset.Prefix, resset.Action]{}
+		for k, v := range s {
+			pm[resset.Prefix(k)] = v
+		}
+		return pm
+	}
+	both := func(s resset.ResourceSet[string, resset.Action], id *string, a resset.Action) {
+		run(&flyio.Volumes{Volumes: s}, &Dyn{NowSec: baseNow, Action: a, Volume: id}, "volume")
+		d2 := &Dyn{NowSec: baseNow, Action: a}
+		if id != nil {
+			p := resset.Prefix(*id)
+			d2.Storage = &p
+		}
+		run(&flyio.StorageObjects{Prefixes: toPrefix(s)}, d2, "storage")
+	}
+	long := strings.Repeat("k", 300)
+	// 1. ids that look special but are ordinary (a literal star, "0", blanks, NUL), letter case, composed / decomposed
+	// accents, very long ids differing in the last byte: an entry covers what it is WRITTEN as
+	{
+		w := []string{"*", "0", "a", "A", " a", "a ", "\u00e9", "e\u0301", "a\x00", "a\x00b", long, long + "x", long[:299], "ab", "%", "a*"}
+		wm := []resset.Action{1, 3, 31, 0xffff}
+		var sets []resset.ResourceSet[string, resset.Action]
+		for i, id := range w {
+			sets = append(sets, resset.ResourceSet[string, resset.Action]{id: wm[i%len(wm)]}, resset.ResourceSet[string, resset.Action]{id: 0xffff})
+		}
+		for i := 0; i < 60; i++ {
+			sets = append(sets, resset.ResourceSet[string, resset.Action]{pick(r, w): pick(r, wm), pick(r, w): pick(r, wm)})
+		}
+		reqs := []*string{nil, pstr(""), pstr("b")}
+		for _, id := range w {
+			reqs = append(reqs, pstr(id))
+		}
+		for _, s := range sets {
+			for _, id := range reqs {
+				for _, a := range []resset.Action{1, 2, 33} {
+					if skip(3) {
+						continue
+					}
+					both(s, id, a)
+					o.count("wide.ids")
+				}
+			}
+		}
+	}
+	// 2. chains of prefixes that all cover one id: the masks of ALL of them are intersected (3..6 matching entries)
+	{
+		chain := []string{"d", "d/", "d/e", "d/e/", "d/e/f", "d/e/f/g"}
+		cm := []resset.Action{1, 3, 5, 9, 31, 0xffff, 0}
+		reqs := []string{"d/e/f", "d/e/fx", "d/e", "d/e/", "d", "e", "d/e/f/g/h", "D/E/F"}
+		nsets := 40
+		if !quick {
+			nsets = 600
+		}
+		for i := 0; i < nsets; i++ {
+			s := resset.ResourceSet[string, resset.Action]{}
+			for _, c := range chain {
+				if r.Chance(2, 3) {
+					s[c] = pick(r, cm)
+				}
+			}
+			if r.Chance(1, 4) {
+				s["q"] = pick(r, cm)
+			}
+			for _, id := range reqs {
+				for _, a := range []resset.Action{1, 3, 8, 31} {
+					if skip(2) {
+						continue
+					}
+					id := id
+					both(s, &id, a)
+					o.count("wide.chain")
+				}
+			}
+		}
+	}
+	// 3. large sets (10..80 entries), the entry asked for anywhere among them, with and without a wildcard mixed in;
+	// maps that were never made
+	{
+		n := 150
+		if !quick {
+			n = 4000
+		}
+		for i := 0; i < n; i++ {
+			size := 10 + r.Intn(70)
+			s := resset.ResourceSet[string, resset.Action]{}
+			u := resset.ResourceSet[uint64, resset.Action]{}
+			for j := 0; j < size; j++ {
+				s[fmt.Sprintf("k%02d", j)] = pick(r, []resset.Action{1, 3, 31, 0xffff})
+				u[uint64(j+1)] = pick(r, []resset.Action{1, 3, 31, 0xffff})
+			}
+			if r.Chance(1, 6) {
+				s[""] = 0xffff
+				u[0] = 0xffff
+				o.count("wide.large.mixed")
+			}
+			j := r.Intn(size + 5)
+			id := fmt.Sprintf("k%02d", j)
+			if r.Chance(1, 5) {
+				id = "k0"
+			}
+			a := pick(r, []resset.Action{1, 2, 3, 31})
+			both(s, &id, a)
+			run(&flyio.Apps{Apps: u}, &Dyn{NowSec: baseNow, Action: a, App: p64(uint64(j + 1))}, "app")
+			o.count("wide.large")
+		}
+		for _, id := range []*string{nil, pstr(""), pstr("a")} {
+			for _, a := range []resset.Action{0, 1} {
+				both(nil, id, a)
+				o.count("wide.nilmap")
+			}
+		}
+		for _, id := range []*uint64{nil, p64(0), p64(1)} {
+			run(&flyio.Apps{}, &Dyn{NowSec: baseNow, Action: 1, App: id}, "app")
+		}
+	}
+	// 4. integer ids at word boundaries, ids equal modulo 2^32 / 2^16 / 2^8, the top bit
+	w64 := []uint64{0, 1, 2, 1 << 32, 1<<32 + 1, 1<<32 + 2, 1 << 63, 1<<63 + 1, 1<<64 - 1, 1<<64 - 2, 255, 256, 257, 65536, 65537}
+	{
+		var sets []resset.ResourceSet[uint64, resset.Action]
+		for _, id := range w64 {
+			sets = append(sets, resset.ResourceSet[uint64, resset.Action]{id: 31})
+		}
+		for i := 0; i < 40; i++ {
+			sets = append(sets, resset.ResourceSet[uint64, resset.Action]{pick(r, w64): pick(r, []resset.Action{1, 31}), pick(r, w64): pick(r, []resset.Action{3, 0xffff})})
+		}
+		for _, s := range sets {
+			for _, id := range w64 {
+				for _, a := range []resset.Action{1, 2} {
+					if skip(2) {
+						continue
+					}
+					run(&flyio.Apps{Apps: s}, &Dyn{NowSec: baseNow, Action: a, App: p64(id)}, "app")
+					o.count("wide.intids")
+				}
+			}
+		}
+	}
+	// 5. ResourceSet used directly by a library user: signed ids (negative ones), narrow ids, an 8-bit mask type, a
+	// string type of the user's, a matcher of the user's; any resource-type text (it only goes into the message).
+	// Shown to the model as the set of the same shape over uint64 / string / prefix ids (the embedding keeps equality
+	// and the zero id).
+	{
+		emitU := func(entries map[int64]uint16, id *int64, a uint16, res string) {
+			keys := make([]uint64, 0, len(entries))
+			for k := range entries {
+				keys = append(keys, uint64(k))
+			}
+			sortU64(keys)
+			var sb strings.Builder
+			sb.WriteString("(apps")
+			for _, k := range keys {
+				fmt.Fprintf(&sb, " (%d %d)", k, entries[int64(k)])
+			}
+			sb.WriteString(")")
+			rq := "(app)"
+			if id != nil {
+				rq = fmt.Sprintf("(app %d)", uint64(*id))
+			}
+			errClassStats(o, res)
+			o.emit(fmt.Sprintf("(prohibits %s (dyn %d 0 ok (action %d) %s))", sb.String(), baseNow, a, rq), res)
+		}
+		ids := []int64{0, 1, -1, 2, -2, 127, -128, 100}
+		rtypes := []string{"app", "", "%s %d %v", "a b", "\u00e9"}
+		n := 250
+		if !quick {
+			n = 6000
+		}
+		for i := 0; i < n; i++ {
+			entries := map[int64]uint16{}
+			for j, m := 0, r.Intn(4); j < m; j++ {
+				entries[pick(r, ids)] = uint16(pick(r, []resset.Action{0, 1, 3, 31, 0xff}))
+			}
+			var id *int64
+			if !r.Chance(1, 6) {
+				v := pick(r, ids)
+				id = &v
+			}
+			a := uint16(pick(r, []resset.Action{0, 1, 2, 3, 32, 0xff}))
+			rt := pick(r, rtypes)
+			var res string
+			switch r.Intn(4) {
+			case 0:
+				rs := resset.ResourceSet[int64, resset.Action]{}
+				for k, v := range entries {
+					rs[k] = resset.Action(v)
+				}
+				res = guard(func() string { return sxErr(rs.Prohibits(id, resset.Action(a), rt)) })
+				o.count("generic.int64")
+			case 1:
+				rs := resset.ResourceSet[int32, resset.Action]{}
+				for k, v := range entries {
+					rs[int32(k)] = resset.Action(v)
+				}
+				var p *int32
+				if id != nil {
+					v := int32(*id)
+					p = &v
+				}
+				res = guard(func() string { return sxErr(rs.Prohibits(p, resset.Action(a), rt)) })
+				o.count("generic.int32")
+			case 2:
+				rs := resset.ResourceSet[int8, mask8]{}
+				for k, v := range entries {
+					rs[int8(k)] = mask8(v)
+				}
+				var p *int8
+				if id != nil {
+					v := int8(*id)
+					p = &v
+				}
+				res = guard(func() string { return sxErr(rs.Prohibits(p, mask8(a), rt)) })
+				o.count("generic.int8.mask8")
+			default:
+				rs := resset.New[int64, resset.Action](resset.Action(a))
+				if id != nil {
+					rs = resset.New(resset.Action(entries[0]), pick(r, ids), *id, pick(r, ids))
+				}
+				entries = map[int64]uint16{}
+				for k, v := range rs {
+					entries[k] = uint16(v)
+				}
+				res = guard(func() string { return sxErr(rs.Prohibits(id, resset.Action(a), rt)) })
+				o.count("generic.New")
+			}
+			emitU(entries, id, a, res)
+		}
+		// user string types: plain (equality) and with a Match method (prefix rule of the user's)
+		sids := []string{"", "a", "ab", "abc", "b", "A"}
+		for i := 0; i < n; i++ {
+			s := resset.ResourceSet[string, resset.Action]{}
+			for j, m := 0, r.Intn(4); j < m; j++ {
+				s[pick(r, sids)] = pick(r, []resset.Action{0, 1, 3, 31})
+			}
+			var id *string
+			if !r.Chance(1, 6) {
+				id = pstr(pick(r, sids))
+			}
+			a := pick(r, []resset.Action{0, 1, 2, 3})
+			rt := pick(r, rtypes)
+			if r.Bool() {
+				rs := resset.ResourceSet[userStrID, resset.Action]{}
+				for k, v := range s {
+					rs[userStrID(k)] = v
+				}
+				var p *userStrID
+				if id != nil {
+					v := userStrID(*id)
+					p = &v
+				}
+				res := guard(func() string { return sxErr(rs.Prohibits(p, a, rt)) })
+				errClassStats(o, res)
+				o.count("generic.userString")
+				d := &Dyn{NowSec: baseNow, Action: a, Volume: id}
+				o.emit(fmt.Sprintf("(prohibits %s %s)", sxCav(&flyio.Volumes{Volumes: s}), d.Sx("volume")), res)
+			} else {
+				rs := resset.ResourceSet[userPrefixID, resset.Action]{}
+				for k, v := range s {
+					rs[userPrefixID(k)] = v
+				}
+				var p *userPrefixID
+				d := &Dyn{NowSec: baseNow, Action: a}
+				if id != nil {
+					v := userPrefixID(*id)
+					p = &v
+					sp := resset.Prefix(*id)
+					d.Storage = &sp
+				}
+				res := guard(func() string { return sxErr(rs.Prohibits(p, a, rt)) })
+				errClassStats(o, res)
+				o.count("generic.userMatcher")
+				o.emit(fmt.Sprintf("(prohibits %s %s)", sxCav(&flyio.StorageObjects{Prefixes: toPrefix(s)}), d.Sx("storage")), res)
+			}
+		}
+	}
+	// 6. action caveats: every pair over the six low bits, pairs over all sixteen, through every request type that
+	// reports an action (the library's own included)
+	for m := 0; m < 64; m++ {
+		for a := 0; a < 64; a++ {
+			if skip(2) {
+				continue
+			}
+			mm := resset.Action(m)
+			run(&mm, &Dyn{NowSec: baseNow, Action: resset.Action(a)}, "action")
+			o.count("action.low6")
+		}
+	}
+	nn := 400
+	if !quick {
+		nn = 20000
+	}
+	for i := 0; i < nn; i++ {
+		mm := resset.Action(r.U64())
+		a := resset.Action(r.U64())
+		switch r.Intn(3) {
+		case 0:
+			a &= mm
+		case 1:
+			a = mm | 1<<uint(r.Intn(16))
+		}
+		d := &Dyn{NowSec: baseNow, Action: a, Org: p64(1)}
+		if r.Chance(1, 4) {
+			now := time.Now()
+			acc := d.FlyioAccess()
+			res := guard(func() string { return sxErr(mm.Prohibits(acc)) })
+			errClassStats(o, res)
+			o.emit(fmt.Sprintf("(prohibits %s %s)", sxCav(&mm), d.SxFlyio(now.Unix(), int64(now.Nanosecond()))), res)
+		} else {
+			run(&mm, d, pick(r, []string{"action", "full", "org", "volume", "orgApp"}))
+		}
+		o.count("action.wide")
+	}
+}
+
+// ressetCondNeedles: conditionals with many members of which exactly ONE refuses (the others concerned and permitting),
+// and of which exactly ONE is concerned at all (the others ask for a resource the request does not name; else-mask
+// empty): the one that matters at every position
+func ressetCondNeedles(r *Rng, o *Out, tier string, run func(c macaroon.Caveat, d *Dyn, kind string)) {
+	maxK := 12
+	if tier == "thorough" {
+		maxK = 40
+	}
+	d := &Dyn{NowSec: baseNow, Action: 3, Org: p64(1)}
+	permit := func() macaroon.Caveat {
+		switch r.Intn(4) {
+		case 0:
+			return &flyio.Organization{ID: pick(r, []uint64{0, 1}), Mask: pick(r, []resset.Action{3, 31, 0xffff})}
+		case 1:
+			a := resset.Action(pick(r, []resset.Action{3, 7, 0xffff}))
+			return &a
+		case 2:
+			return &flyio.IsUser{ID: 1}
+		}
+		return &resset.IfPresent{Ifs: macaroon.NewCaveatSet(), Else: 3}
+	}
+	unconcerned := func() macaroon.Caveat {
+		switch r.Intn(4) {
+		case 0:
+			return &flyio.Apps{Apps: resset.ResourceSet[uint64, resset.Action]{1: 0}}
+		case 1:
+			return &flyio.Volumes{Volumes: resset.ResourceSet[string, resset.Action]{"v": 0}}
+		case 2:
+			return &flyio.Mutations{}
+		}
+		return &flyio.FeatureSet{Features: resset.ResourceSet[string, resset.Action]{}}
+	}
+	deny := func() macaroon.Caveat {
+		switch r.Intn(4) {
+		case 0:
+			return &flyio.Organization{ID: 2, Mask: 0xffff}
+		case 1:
+			a := resset.Action(1)
+			return &a
+		case 2:
+			return &macaroon.UnregisteredCaveat{Type: 1 << 40, RawMsgpack: []byte{0xc0}}
+		}
+		return &resset.IfPresent{Ifs: macaroon.NewCaveatSet(), Else: 1}
+	}
+	for k := 0; k <= maxK; k++ {
+		for at := 0; at <= k; at++ {
+			a := make([]macaroon.Caveat, 0, k+1)
+			b := make([]macaroon.Caveat, 0, k+1)
+			for i := 0; i < k; i++ {
+				a = append(a, permit())
+				b = append(b, unconcerned())
+			}
+			a = append(a[:at], append([]macaroon.Caveat{deny()}, a[at:]...)...)
+			b = append(b[:at], append([]macaroon.Caveat{permit()}, b[at:]...)...)
+			run(&resset.IfPresent{Ifs: macaroon.NewCaveatSet(a...), Else: 0xffff}, d, "full")
+			run(&resset.IfPresent{Ifs: macaroon.NewCaveatSet(b...), Else: 0}, d, "full")
+			o.count("cond.needle")
+		}
+	}
+}
+
+func sortU64(xs []uint64) {
+	for i := 1; i < len(xs); i++ {
+		for j := i; j > 0 && xs[j] < xs[j-1]; j-- {
+			xs[j], xs[j-1] = xs[j-1], xs[j]
+		}
 	}
 }
 
@@ -528,6 +1735,337 @@ func famFlyio(r *Rng, o *Out, tier string) {
 			}
 		}
 	}
+	flyioWide(r, o, tier)
+}
+
+// ---- (audit) C10: present-but-empty fields, spellings, longer lists, ids at word boundaries, real clocks ----
+
+var spellStrs = []string{"a", "A", "a ", " a", "ab", "", "*", "\u00e9", "e\u0301", "wg", "WG", "billing", "Billing", "litefs-cloud", "LiteFS-Cloud", "deletion"}
+var wideU64 = []uint64{0, 1, 2, 3, 1 << 32, 1<<32 + 1, 1<<32 + 2, 1 << 63, 1<<63 + 1, 1<<64 - 1, 255, 256, 65536, 65537}
+
+// a request time in another zone / in UTC: the same instant
+type tzBare struct {
+	core
+	loc *time.Location
+}
+
+func (t tzBare) Now() time.Time { return time.Unix(t.d.NowSec, t.d.NowNsec).In(t.loc) }
+
+func flyioWide(r *Rng, o *Out, tier string) {
+	quick := tier != "thorough"
+	wf := func(d *Dyn, tag string) {
+		a := d.FlyioAccess()
+		res := guard(func() string { return sxErr(a.Validate()) })
+		errClassStats(o, res)
+		o.count(tag)
+		o.emit(fmt.Sprintf("(wf %s)", d.SxFlyio(0, 0)), res)
+	}
+	// 1. well-formedness with fields that are PRESENT but hold the zero value: organisation 0, app 0, empty strings,
+	// an empty command line, a command line holding one empty argument. Present is present.
+	for pat := 0; pat < 1<<13; pat++ {
+		bit := func(i int) bool { return pat>>i&1 == 1 }
+		d := &Dyn{}
+		if bit(0) {
+			d.Org = p64(0)
+		}
+		if bit(1) {
+			d.App = p64(0)
+		}
+		if bit(2) {
+			d.Feature = pstr("")
+		}
+		if bit(3) {
+			p := resset.Prefix("")
+			d.Storage = &p
+		}
+		if bit(4) {
+			d.Machine = pstr("")
+		}
+		if bit(5) {
+			d.Volume = pstr("")
+		}
+		if bit(6) {
+			d.AppFeat = pstr("")
+		}
+		if bit(7) {
+			d.Cluster = pstr("")
+		}
+		if bit(8) {
+			d.HasCmd = true
+		}
+		if bit(9) {
+			d.MachFeat = pstr("")
+		}
+		if bit(10) {
+			d.Mutation = pstr("")
+		}
+		if bit(11) {
+			d.SrcMach = pstr("")
+		}
+		if bit(12) {
+			d.HasCmd = true
+			d.Command = []string{""}
+		}
+		wf(d, "wf.zerovalues")
+	}
+	// 2. clusters need THE litefs-cloud feature: near spellings are other features
+	for _, ft := range []string{flyio.FeatureLFSC, "LITEFS-CLOUD", "LiteFS-Cloud", "litefs-cloud ", " litefs-cloud", "litefs_cloud", "litefs-cloud\x00", "litefs-clou", "litefs-cloudx", "", "wg", "cluster"} {
+		for pat := 0; pat < 8; pat++ {
+			d := &Dyn{Action: 1, Org: p64(1), Feature: pstr(ft)}
+			if pat&1 != 0 {
+				d.Cluster = pstr(pick(r, []string{"c", "", "litefs-cloud"}))
+			}
+			if pat&2 != 0 {
+				d.App = p64(2)
+			}
+			if pat&4 != 0 {
+				d.SrcMach, d.Mutation = pstr("m"), pstr("mu")
+			}
+			wf(d, "wf.lfsc.spellings")
+		}
+	}
+	// 3. roles: feature names in other spellings are unknown features (admin only); action masks with undefined bits;
+	// no feature at all under every mask
+	roleFeats := []*string{nil}
+	for _, f := range []string{"wg", "WG", "Wg", " wg", "wg ", "billing", "Billing", "BILLING", "membership", "Membership", "authentication", "deletion", "Deletion", "document_signing", "document-signing", "litefs-cloud", "LiteFS-Cloud", "litefs_cloud", "wg\x00", "b\u0131lling"} {
+		roleFeats = append(roleFeats, pstr(f))
+	}
+	for _, f := range roleFeats {
+		for _, a := range []resset.Action{0, 1, 2, 3, 16, 31, 32, 33, 0x8000, 0x8001, 0xfffe, 0xffff} {
+			d := &Dyn{Action: a, Feature: f, Org: p64(1)}
+			roles := d.FlyioAccess().GetPermittedRoles()
+			parts := make([]string, len(roles))
+			for i, x := range roles {
+				parts[i] = fmt.Sprint(uint32(x))
+			}
+			o.count("roles.spellings")
+			o.emit(fmt.Sprintf("(roles %s)", d.SxFlyio(0, 0)), "roles:"+strings.Join(parts, ","))
+		}
+	}
+	// 4. caveat values and requests outside the shared pools
+	n := 6000
+	if !quick {
+		n = 200000
+	}
+	ss := func() string { return pick(r, spellStrs) }
+	optS := func() *string {
+		if r.Chance(1, 5) {
+			return nil
+		}
+		return pstr(ss())
+	}
+	strSet := func() resset.ResourceSet[string, resset.Action] {
+		m := resset.ResourceSet[string, resset.Action]{}
+		for i, k := 0, r.Intn(4); i < k; i++ {
+			m[ss()] = r.mask()
+		}
+		if r.Chance(1, 12) {
+			return nil
+		}
+		return m
+	}
+	argPool := []string{"a", "b", "ls", "LS", "-l", "ls -l", "", " ", "rm"}
+	for i := 0; i < n; i++ {
+		d := r.Dyn()
+		d.WF = ""
+		var c macaroon.Caveat
+		switch k := r.Intn(14); k {
+		case 0: // organisation ids at word boundaries / equal modulo 2^32
+			c = &flyio.Organization{ID: pick(r, wideU64), Mask: r.mask()}
+			d.Org = p64(pick(r, wideU64))
+			if r.Chance(1, 8) {
+				d.Org = nil
+			}
+		case 1:
+			m := resset.ResourceSet[uint64, resset.Action]{}
+			for j, k := 0, r.Intn(3); j < k; j++ {
+				m[pick(r, wideU64)] = r.mask()
+			}
+			c = &flyio.Apps{Apps: m}
+			d.App = p64(pick(r, wideU64))
+		case 2: // command lines: up to 5 allowed commands of up to 5 arguments; the request derived from one of them
+			var cs flyio.Commands
+			for j, k := 0, r.Intn(6); j < k; j++ {
+				var args []string
+				for a, m := 0, r.Intn(6); a < m; a++ {
+					args = append(args, pick(r, argPool))
+				}
+				if args == nil && r.Bool() {
+					args = []string{}
+				}
+				cs = append(cs, flyio.Command{Args: args, Exact: r.Bool()})
+			}
+			if len(cs) > 1 && r.Chance(1, 5) {
+				cs[r.Intn(len(cs))] = cs[r.Intn(len(cs))]
+			}
+			c = &cs
+			d.HasCmd, d.Command = true, nil
+			if len(cs) > 0 && !r.Chance(1, 4) {
+				base := append([]string{}, cs[r.Intn(len(cs))].Args...)
+				switch r.Intn(6) {
+				case 0:
+					base = append(base, pick(r, argPool))
+				case 1:
+					if len(base) > 0 {
+						base = base[:len(base)-1]
+					}
+				case 2:
+					if len(base) > 0 {
+						base[len(base)-1] = pick(r, argPool)
+					}
+				case 3:
+					if len(base) > 0 {
+						j := r.Intn(len(base))
+						base[j] = strings.ToUpper(base[j])
+					}
+				case 4:
+					if len(base) > 1 { // the same arguments, joined
+						base = []string{strings.Join(base, " ")}
+					}
+				}
+				d.Command = base
+			} else {
+				for a, m := 0, r.Intn(6); a < m; a++ {
+					d.Command = append(d.Command, pick(r, argPool))
+				}
+			}
+			if r.Chance(1, 10) {
+				d.HasCmd, d.Command = false, nil
+			}
+			o.count(fmt.Sprintf("wide.commands.allowed%d.args%d", len(cs), len(d.Command)))
+		case 3: // mutation lists: longer, unsorted, with duplicates and other spellings
+			pool := []string{"addCertificate", "addcertificate", "AddCertificate", "addCertificate ", "deleteApp", "m", "M", "", "z", "a"}
+			var ms []string
+			for j, k := 0, r.Intn(9); j < k; j++ {
+				ms = append(ms, pick(r, pool))
+			}
+			c = &flyio.Mutations{Mutations: ms}
+			d.Mutation = pstr(pick(r, pool))
+			if r.Chance(1, 8) {
+				d.Mutation = nil
+			}
+			o.count(fmt.Sprintf("wide.mutations.len%d", len(ms)))
+		case 4: // roles: more bits, zero to four permitted roles (the zero role is contained in every mask)
+			ar := flyio.AllowedRoles(pick(r, []uint32{0, 1, 2, 3, 4, 5, 6, 8, 0x80000000, 0x7FFFFFFF, 0xFFFFFFFE, 0xFFFFFFFF}))
+			c = &ar
+			if r.Chance(1, 5) {
+				c = &flyio.IsMember{}
+			}
+			d.Roles = nil
+			for j, k := 0, r.Intn(5); j < k; j++ {
+				d.Roles = append(d.Roles, flyio.Role(pick(r, []uint32{0, 1, 2, 3, 4, 6, 8, 0x80000000, 0xFFFFFFFF, 0xFFFFFFFE})))
+			}
+			o.count(fmt.Sprintf("wide.roles.permitted%d", len(d.Roles)))
+		case 5: // source restrictions: spellings; present-but-empty request fields
+			c = &flyio.FlySrc{Organization: pick(r, []string{"", "a", "A", "a ", "b"}), App: pick(r, []string{"", "a", "A", "a ", "b"}), Instance: pick(r, []string{"", "a", "A", "a ", "b"})}
+			src := func() *string {
+				return pick(r, []*string{nil, pstr(""), pstr("a"), pstr("a"), pstr("A"), pstr("a "), pstr("b")})
+			}
+			d.SrcOrg, d.SrcApp, d.SrcMach = src(), src(), src()
+		case 6:
+			c = &flyio.FromMachine{ID: pick(r, []string{"", "a", "A", "a ", "b", "\u00e9", "e\u0301"})}
+			d.SrcMach = pick(r, []*string{nil, pstr(""), pstr("a"), pstr("A"), pstr("a "), pstr("b"), pstr("\u00e9"), pstr("e\u0301")})
+		case 7:
+			c = &flyio.Volumes{Volumes: strSet()}
+			d.Volume = optS()
+		case 8:
+			c = &flyio.Machines{Machines: strSet()}
+			d.Machine = optS()
+		case 9:
+			switch r.Intn(3) {
+			case 0:
+				c = &flyio.FeatureSet{Features: strSet()}
+			case 1:
+				c = &flyio.AppFeatureSet{Features: strSet()}
+			default:
+				c = &flyio.MachineFeatureSet{Features: strSet()}
+			}
+			d.Feature, d.AppFeat, d.MachFeat = optS(), optS(), optS()
+		case 10:
+			c = &flyio.Clusters{Clusters: strSet()}
+			d.Cluster = optS()
+		case 11:
+			m := resset.ResourceSet[resset.Prefix, resset.Action]{}
+			for k, v := range strSet() {
+				m[resset.Prefix(k)] = v
+			}
+			c = &flyio.StorageObjects{Prefixes: m}
+			if s := optS(); s != nil {
+				p := resset.Prefix(*s + pick(r, []string{"", "/x", "b"}))
+				d.Storage = &p
+			} else {
+				d.Storage = nil
+			}
+		case 12: // roles as the library's own request type computes them, features in every spelling
+			ar := flyio.AllowedRoles(pick(r, []uint32{0, 1, 2, 3, 0xFFFFFFFF, 0xFFFFFFFE}))
+			c = &ar
+			if r.Bool() {
+				c = &flyio.IsMember{}
+			}
+			d.Feature = optS()
+			now := time.Now()
+			a := d.FlyioAccess()
+			res := guard(func() string { return sxErr(c.Prohibits(a)) })
+			errClassStats(o, res)
+			o.count("wide.roles.flyioAccess")
+			o.emit(fmt.Sprintf("(prohibits %s %s)", sxCav(c), d.SxFlyio(now.Unix(), int64(now.Nanosecond()))), res)
+			continue
+		default:
+			c = &flyio.IsUser{ID: pick(r, wideU64)}
+		}
+		o.count(fmt.Sprintf("wide.cav.%T", c))
+		if r.Chance(1, 4) {
+			now := time.Now()
+			a := d.FlyioAccess()
+			res := guard(func() string { return sxErr(c.Prohibits(a)) })
+			errClassStats(o, res)
+			o.emit(fmt.Sprintf("(prohibits %s %s)", sxCav(c), d.SxFlyio(now.Unix(), int64(now.Nanosecond()))), res)
+			continue
+		}
+		kind := pick(r, []string{"full", "full", "full", "fullNoAction"})
+		res := guard(func() string { return sxErr(c.Prohibits(d.As(kind))) })
+		errClassStats(o, res)
+		o.emit(fmt.Sprintf("(prohibits %s %s)", sxCav(c), d.Sx(kind)), res)
+	}
+	// 5. windows against the library's own request type, whose clock is the wall clock (bounds an hour or more away
+	// from it, or the extremes), alone and inside a conditional
+	{
+		now := time.Now().Unix()
+		type w struct{ nb, na int64 }
+		for _, b := range []w{{now - 3600, now + 3600}, {now + 3600, now + 7200}, {now - 7200, now - 3600}, {-1 << 63, 1<<63 - 1}, {0, now + 3600}, {now - 3600, 1<<63 - 1},
+			{now + 3600, now - 3600}, {0, 0}, {-1 << 63, now - 3600}, {now + 3600, 1<<63 - 1}, {-62135596800, now + 86400}, {now - 86400, 253402300799}, {now - 3600, 1<<63 - 1 - 62135596800}} {
+			for rep := 0; rep < 2; rep++ {
+				var c macaroon.Caveat = &macaroon.ValidityWindow{NotBefore: b.nb, NotAfter: b.na}
+				if rep == 1 {
+					c = &resset.IfPresent{Ifs: macaroon.NewCaveatSet(c), Else: 0}
+				}
+				d := &Dyn{Action: 1, Org: p64(1)}
+				t0 := time.Now()
+				a := d.FlyioAccess()
+				res := guard(func() string { return sxErr(c.Prohibits(a)) })
+				errClassStats(o, res)
+				o.count("vw.wallclock")
+				o.emit(fmt.Sprintf("(prohibits %s %s)", sxCav(c), d.SxFlyio(t0.Unix(), int64(t0.Nanosecond()))), res)
+			}
+		}
+	}
+	// 6. the instant is what counts, not the zone the request reports it in
+	for _, loc := range []*time.Location{time.UTC, time.FixedZone("east", 14*3600), time.FixedZone("west", -12*3600), time.FixedZone("odd", 5*3600+45*60+17)} {
+		for _, nb := range []int64{baseNow - 1, baseNow, baseNow + 1, 0} {
+			for _, na := range []int64{baseNow - 1, baseNow, baseNow + 1, 1<<63 - 1} {
+				for _, sec := range []int64{baseNow - 1, baseNow, baseNow + 1, 0, 86399, -62135596800} {
+					for _, ns := range []int64{0, 1} {
+						c := &macaroon.ValidityWindow{NotBefore: nb, NotAfter: na}
+						d := &Dyn{NowSec: sec, NowNsec: ns}
+						res := guard(func() string { return sxErr(c.Prohibits(tzBare{core{d}, loc})) })
+						errClassStats(o, res)
+						o.count("vw.zones")
+						o.emit(fmt.Sprintf("(prohibits %s %s)", sxCav(c), d.Sx("bare")), res)
+					}
+				}
+			}
+		}
+	}
 }
 
 // ---- C18 ----
@@ -701,4 +2239,371 @@ func famAuthcav(r *Rng, o *Out, tier string) {
 		o.count("getmaxvalidity")
 		o.emit(fmt.Sprintf("(getmaxvalidity %s)", sxCavs(cs)), res)
 	}
+	authcavWide(r, o, tier, n)
+}
+
+// ---- (audit) C18: more identities, ids at word boundaries, look-alike request types, other expiries, user wrappers ----
+
+// a request type that HOLDS a discharge request (all its methods are promoted) is not a discharge request
+type embedsDR struct{ *auth.DischargeRequest }
+type holdsDR struct {
+	auth.DischargeRequest
+	Note string
+}
+
+// mvComparable: the lifetime as seen at t0 is at least 2 s away from the limit the code compares with (the call reads
+// the clock a little later than t0)
+func mvComparable(lim uint64, expiry, t0 time.Time) bool {
+	life := new(big.Int).SetInt64(int64(expiry.Sub(t0)))
+	d := new(big.Int).SetInt64(int64(time.Duration(lim) * time.Second))
+	diff := new(big.Int).Sub(life, d)
+	return diff.CmpAbs(big.NewInt(2_000_000_000)) >= 0
+}
+
+func authcavWide(r *Rng, o *Out, tier string, n int) {
+	limits := []uint64{0, 1, 60, 3600, 1 << 31, 9223372036, 9223372037, 1<<63 - 1, 1 << 63, 1<<64 - 1, 18446744073, 18446744074}
+	hdPool := []string{"example.com", "Example.com", "example.com.", "example.co", "xample.com", "", "a", "e\u0301.example", "\u00e9.example"}
+	wid := func() uint64 {
+		if r.Bool() {
+			return pick(r, wideU64)
+		}
+		return pick(r, smallIDs)
+	}
+	idList := func() []uint64 {
+		switch r.Intn(8) {
+		case 0:
+			return nil
+		case 1:
+			return []uint64{}
+		case 2: // a long list, the interesting id anywhere in it
+			l := make([]uint64, 10+r.Intn(30))
+			for i := range l {
+				l[i] = 100 + uint64(i)
+			}
+			l[r.Intn(len(l))] = wid()
+			return l
+		}
+		var l []uint64
+		for i, m := 0, 1+r.Intn(4); i < m; i++ {
+			l = append(l, wid())
+		}
+		if r.Chance(1, 4) {
+			l = append(l, l[0])
+		}
+		return l
+	}
+	// up to 6 identities per provider, one identity VALUE possibly presented twice
+	wideDR := func() *auth.DischargeRequest {
+		dr := &auth.DischargeRequest{}
+		cnt := func() int { return pick(r, []int{0, 1, 1, 2, 3, 4, 6}) }
+		for i, m := 0, cnt(); i < m; i++ {
+			if i > 0 && r.Chance(1, 6) {
+				dr.Flyio = append(dr.Flyio, dr.Flyio[r.Intn(i)])
+				continue
+			}
+			dr.Flyio = append(dr.Flyio, &auth.FlyioAuth{UserID: wid(), OrganizationIDs: idList()})
+		}
+		for i, m := 0, cnt(); i < m; i++ {
+			g := &auth.GoogleAuth{HD: pick(r, hdPool), Email: pick(r, []string{"", "u@example.com", "example.com", "u@" + pick(r, hdPool)})}
+			dr.Google = append(dr.Google, g)
+		}
+		for i, m := 0, cnt(); i < m; i++ {
+			if i > 0 && r.Chance(1, 6) {
+				dr.GitHub = append(dr.GitHub, dr.GitHub[r.Intn(i)])
+				continue
+			}
+			dr.GitHub = append(dr.GitHub, &auth.GitHubAuth{UserID: wid(), Login: pick(r, hdPool), OrgIDs: idList()})
+		}
+		o.count(fmt.Sprintf("wide.dr.identities.%d.%d.%d", len(dr.Flyio), len(dr.Google), len(dr.GitHub)))
+		return dr
+	}
+	wideCond := func() macaroon.Caveat {
+		switch r.Intn(4) {
+		case 0:
+			return &auth.ConfineUser{ID: wid()}
+		case 1:
+			return &auth.ConfineOrganization{ID: wid()}
+		case 2:
+			h := auth.ConfineGoogleHD(pick(r, hdPool))
+			return &h
+		}
+		g := auth.ConfineGitHubOrg(wid())
+		return &g
+	}
+	evalDR := func(c macaroon.Caveat, dr *auth.DischargeRequest, tag string) {
+		t0 := time.Now()
+		if dr.Expiry.IsZero() {
+			dr.Expiry = t0.Add(time.Hour)
+		}
+		res := guard(func() string { return sxErr(c.Prohibits(dr)) })
+		errClassStats(o, res)
+		o.count(tag)
+		o.emit(fmt.Sprintf("(prohibits %s %s)", sxCav(c), sxDR(dr, t0.Unix(), int64(t0.Nanosecond()))), res)
+	}
+	// 1. wide requests against wide conditions; half of the time the condition names an id / domain the request holds
+	for i := 0; i < n/3; i++ {
+		dr := wideDR()
+		c := wideCond()
+		if r.Bool() {
+			switch v := c.(type) {
+			case *auth.ConfineUser:
+				if len(dr.Flyio) > 0 {
+					v.ID = pick(r, dr.Flyio).UserID
+				}
+			case *auth.ConfineOrganization:
+				if len(dr.Flyio) > 0 {
+					if l := pick(r, dr.Flyio).OrganizationIDs; len(l) > 0 {
+						v.ID = pick(r, l)
+					}
+				}
+			case *auth.ConfineGoogleHD:
+				if len(dr.Google) > 0 {
+					*v = auth.ConfineGoogleHD(pick(r, dr.Google).HD)
+				}
+			case *auth.ConfineGitHubOrg:
+				if len(dr.GitHub) > 0 {
+					if l := pick(r, dr.GitHub).OrgIDs; len(l) > 0 {
+						*v = auth.ConfineGitHubOrg(pick(r, l))
+					}
+				}
+			}
+		}
+		evalDR(c, dr, "wide.cond")
+	}
+	// 2. ids are compared as 64-bit numbers: wanted x presented over ids equal modulo 2^32 / 2^16 / 2^8, the top bit,
+	// the extremes; also next to an identity holding the wanted number in ANOTHER role (a user id that is not an
+	// organisation id, and the other way round)
+	for _, want := range wideU64 {
+		for _, have := range wideU64 {
+			for kind := 0; kind < 3; kind++ {
+				dr := &auth.DischargeRequest{}
+				var c macaroon.Caveat
+				switch kind {
+				case 0:
+					c = &auth.ConfineUser{ID: want}
+					dr.Flyio = []*auth.FlyioAuth{{UserID: have, OrganizationIDs: []uint64{want}}}
+				case 1:
+					c = &auth.ConfineOrganization{ID: want}
+					dr.Flyio = []*auth.FlyioAuth{{UserID: want, OrganizationIDs: []uint64{have}}}
+					dr.GitHub = []*auth.GitHubAuth{{UserID: want, OrgIDs: []uint64{want}}}
+				default:
+					g := auth.ConfineGitHubOrg(want)
+					c = &g
+					dr.GitHub = []*auth.GitHubAuth{{UserID: want, OrgIDs: []uint64{have}}}
+					dr.Flyio = []*auth.FlyioAuth{{UserID: want, OrganizationIDs: []uint64{want}}}
+				}
+				evalDR(c, dr, "wide.ids64")
+			}
+		}
+	}
+	// 3. request types that are not *DischargeRequest although they carry one (embedded pointer, embedded value), the
+	// library's other request type: every condition refuses them
+	for i := 0; i < 60; i++ {
+		dr := wideDR()
+		t0 := time.Now()
+		dr.Expiry = t0.Add(time.Minute)
+		var c macaroon.Caveat = wideCond()
+		if r.Chance(1, 4) {
+			mv := auth.MaxValidity(pick(r, []uint64{3600, 1<<63 - 1}))
+			c = &mv
+		}
+		if v, ok := c.(*auth.ConfineUser); ok && len(dr.Flyio) > 0 {
+			v.ID = dr.Flyio[0].UserID
+		}
+		var a macaroon.Access
+		var sx string
+		switch i % 3 {
+		case 0:
+			a, sx = embedsDR{dr}, fmt.Sprintf("(dyn %d %d ok)", t0.Unix(), t0.Nanosecond())
+			o.count("wide.lookalike.embedsPointer")
+		case 1:
+			a, sx = &holdsDR{DischargeRequest: *dr}, fmt.Sprintf("(dyn %d %d ok)", t0.Unix(), t0.Nanosecond())
+			o.count("wide.lookalike.embedsValue")
+		default:
+			d := &Dyn{Action: 1, Org: p64(1)}
+			a, sx = d.FlyioAccess(), d.SxFlyio(t0.Unix(), int64(t0.Nanosecond()))
+			o.count("wide.lookalike.flyioAccess")
+		}
+		res := guard(func() string { return sxErr(c.Prohibits(a)) })
+		errClassStats(o, res)
+		o.emit(fmt.Sprintf("(prohibits %s %s)", sxCav(c), sx), res)
+	}
+	// 4. lifetimes: expiries that are not "now + d" - the zero time.Time, the epoch, years 1 / 9999 / 2262+, values
+	// without a monotonic reading, in UTC or another zone (the instant is what counts)
+	for i := 0; i < n/8; i++ {
+		lim := pick(r, limits)
+		if r.Chance(1, 3) {
+			lim = uint64(r.Intn(100000))
+		}
+		mv := auth.MaxValidity(lim)
+		dr := r.DischargeRequest()
+		t0 := time.Now()
+		var tag string
+		switch r.Intn(8) {
+		case 0:
+			dr.Expiry, tag = time.Time{}, "zero"
+		case 1:
+			dr.Expiry, tag = time.Unix(0, 0), "epoch"
+		case 2:
+			dr.Expiry, tag = time.Date(9999, 12, 31, 23, 59, 59, 999999999, time.UTC), "y9999"
+		case 3:
+			dr.Expiry, tag = time.Unix(pick(r, []int64{1 << 40, 1<<62 - 1, -1 << 40, 1<<63 - 1 - 62135596800}), 0), "far"
+		case 4: // limit +- a few seconds, the wall reading only
+			dr.Expiry, tag = t0.Add(time.Duration(lim%9000000000)*time.Second+pick(r, []time.Duration{-3 * time.Second, 3 * time.Second, -2500 * time.Millisecond, 2500 * time.Millisecond})).Round(0), "wallOnly"
+		case 5:
+			dr.Expiry, tag = t0.Add(time.Duration(lim%9000000000)*time.Second+pick(r, []time.Duration{-3 * time.Second, 3 * time.Second})).UTC(), "utc"
+		case 6:
+			dr.Expiry, tag = t0.Add(time.Duration(lim%9000000000)*time.Second+pick(r, []time.Duration{-3 * time.Second, 3 * time.Second})).In(time.FixedZone("east", 14*3600)), "zone"
+		default:
+			dr.Expiry, tag = time.Unix(t0.Unix()+int64(lim%9000000000)+pick(r, []int64{-3, 3, -86400, 86400}), int64(r.Intn(1000000000))), "rebuilt"
+		}
+		if !mvComparable(lim, dr.Expiry, t0) {
+			o.count("discarded.nearlimit")
+			continue
+		}
+		res := guard(func() string { return sxErr(mv.Prohibits(dr)) })
+		if time.Since(t0) > 500*time.Millisecond {
+			o.count("discarded.slow")
+			continue
+		}
+		errClassStats(o, res)
+		o.count("wide.expiry." + tag)
+		o.emit(fmt.Sprintf("(prohibits %s %s)", sxCav(&mv), sxDR(dr, t0.Unix(), int64(t0.Nanosecond()))), res)
+	}
+	// 5. several conditions in one set, cleared together against one or more discharge requests (the way a third
+	// party checks a ticket's caveats): all must hold for all
+	for i := 0; i < n/16; i++ {
+		m := 1 + r.Intn(3)
+		drs := make([]*auth.DischargeRequest, m)
+		for j := range drs {
+			drs[j] = wideDR()
+			if j > 0 && r.Chance(1, 3) {
+				drs[j] = drs[0]
+			}
+		}
+		var cavs []macaroon.Caveat
+		for j, k := 0, 1+r.Intn(4); j < k; j++ {
+			c := wideCond()
+			if r.Chance(2, 3) { // make it hold for the first request where possible
+				switch v := c.(type) {
+				case *auth.ConfineUser:
+					if len(drs[0].Flyio) > 0 {
+						v.ID = pick(r, drs[0].Flyio).UserID
+					}
+				case *auth.ConfineGoogleHD:
+					if len(drs[0].Google) > 0 {
+						*v = auth.ConfineGoogleHD(pick(r, drs[0].Google).HD)
+					}
+				}
+			}
+			cavs = append(cavs, c)
+		}
+		if r.Bool() {
+			mv := auth.MaxValidity(pick(r, []uint64{60, 7200, 1<<63 - 1}))
+			cavs = append(cavs, &mv)
+		}
+		if r.Chance(1, 4) {
+			u := auth.FlyioUserID(wid())
+			at := r.Intn(len(cavs) + 1)
+			cavs = append(cavs[:at], append([]macaroon.Caveat{&u}, cavs[at:]...)...)
+		}
+		t0 := time.Now()
+		accs := make([]macaroon.Access, m)
+		sxs := make([]string, m)
+		for j := range drs {
+			drs[j].Expiry = t0.Add(time.Hour)
+		}
+		for j := range drs {
+			accs[j], sxs[j] = drs[j], sxDR(drs[j], t0.Unix(), int64(t0.Nanosecond()))
+		}
+		cs := macaroon.NewCaveatSet(cavs...)
+		res := guard(func() string { return sxErr(cs.Validate(accs...)) })
+		errClassStats(o, res)
+		o.count("wide.validate")
+		o.emit(fmt.Sprintf("(validate %s (%s))", sxCavs(cavs), strings.Join(sxs, " ")), res)
+	}
+	// 6. GetMaxValidity: many limits, one limit VALUE at several places, limits only deep inside, conditionals without a
+	// set, wrapper types of a library user (GetCaveats looks into anything that unwraps; shown to the model as a
+	// conditional), wrappers that unwrap to nothing
+	for i := 0; i < n/16; i++ {
+		var shared []*auth.MaxValidity
+		for j := 0; j < 3; j++ {
+			mv := auth.MaxValidity(pick(r, limits))
+			shared = append(shared, &mv)
+		}
+		var mk func(depth int) []macaroon.Caveat
+		mk = func(depth int) []macaroon.Caveat {
+			var cs []macaroon.Caveat
+			m := r.Intn(4)
+			if r.Chance(1, 10) {
+				m = 8 + r.Intn(20)
+			}
+			for j := 0; j < m; j++ {
+				switch k := r.Intn(10); {
+				case depth > 0 && k < 3:
+					cs = append(cs, &resset.IfPresent{Ifs: macaroon.NewCaveatSet(mk(depth - 1)...), Else: r.mask()})
+				case depth > 0 && k == 3:
+					w := &userWrap{Typ: pick(r, userTypeNumbers), Permit: r.Bool(), Inner: macaroon.NewCaveatSet(mk(depth - 1)...)}
+					if r.Chance(1, 5) {
+						w.Inner = nil
+					}
+					cs = append(cs, w)
+					o.count("getmaxvalidity.userWrapper")
+				case k == 4:
+					cs = append(cs, &resset.IfPresent{Else: r.mask()})
+				case k < 7:
+					cs = append(cs, pick(r, shared))
+				case k == 7:
+					mv := auth.MaxValidity(r.U64())
+					if r.Bool() {
+						mv = auth.MaxValidity(r.U64() % 9223372037)
+					}
+					cs = append(cs, &mv)
+				default:
+					cs = append(cs, r.Cav(0))
+				}
+			}
+			return cs
+		}
+		cs := mk(pick(r, []int{0, 1, 3, 6}))
+		if r.Chance(1, 4) { // the only limits sit at the bottom of a chain of wrappers
+			mv := auth.MaxValidity(pick(r, limits))
+			inner := []macaroon.Caveat{&mv}
+			for d := 0; d < 2+r.Intn(8); d++ {
+				inner = []macaroon.Caveat{&resset.IfPresent{Ifs: macaroon.NewCaveatSet(inner...), Else: 0}}
+			}
+			cs = inner
+			o.count("getmaxvalidity.deepOnly")
+		}
+		res := guard(func() string {
+			d, ok := auth.GetMaxValidity(macaroon.NewCaveatSet(cs...))
+			return fmt.Sprintf("maxvalidity:%d,%v", int64(d), ok)
+		})
+		o.count("getmaxvalidity.wide")
+		o.emit(fmt.Sprintf("(getmaxvalidity %s)", sxCavsW(cs)), res)
+	}
+}
+
+// sxCavsW prints a set for GetMaxValidity: a user wrapper is what it unwraps to (a conditional, to the model)
+func sxCavsW(cs []macaroon.Caveat) string {
+	parts := make([]string, len(cs))
+	for i, c := range cs {
+		switch v := c.(type) {
+		case *userWrap:
+			if v.Inner == nil {
+				parts[i] = "(ifp () 0)"
+			} else {
+				parts[i] = fmt.Sprintf("(ifp %s 0)", sxCavsW(v.Inner.Caveats))
+			}
+		case *resset.IfPresent:
+			if v.Ifs == nil {
+				parts[i] = sxCav(c)
+			} else {
+				parts[i] = fmt.Sprintf("(ifp %s %d)", sxCavsW(v.Ifs.Caveats), uint16(v.Else))
+			}
+		default:
+			parts[i] = sxCav(c)
+		}
+	}
+	return "(" + strings.Join(parts, " ") + ")"
 }
